@@ -32,6 +32,7 @@ full dimension with a margin (harness-side float64 Lanczos on the densified clos
 >= 1e-4); otherwise the root is low-rank/approximate by design and only the shape is checked (label
 `skip:lanczos_degenerate`).
 """
+import math
 import re
 import warnings
 from unittest import mock
@@ -320,6 +321,24 @@ def _shape_of_recipe(r):
     return refmodel.shape(r)
 
 
+def _negative_shift(r):
+    """K + D with D = -s I, 0 < s < lambda_min(K): a PSD operator whose diagonal summand is NOT PSD on its own (the property
+    quantifies over PSD operators, not over sums of PSD terms; only PsdSum promises term-wise sampling)."""
+    if gen.is_diag_instance(r) or r["op"] in ("Zero", "Identity"):
+        return r
+    try:
+        A = refmodel.dense(r)
+        if A.shape[-1] != A.shape[-2] or not torch.allclose(A, A.transpose(-1, -2)):
+            return r
+        lmin = float(torch.linalg.eigvalsh(A).min())
+    except Exception:
+        return r
+    if not lmin > 2.0**-6:
+        return r
+    s = 2.0 ** math.floor(math.log2(lmin / 2.0))
+    return {"op": "AddedDiag", "args": [r, {"op": "ConstantDiag", "c": {"lit": [-s], "dt": R.dtype_of(r)}, "n": int(A.shape[-1])}]}
+
+
 @st.composite
 def cases(draw, tier):
     excl = _exclusions()
@@ -345,6 +364,8 @@ def cases(draw, tier):
     _permute_interp_slots(draw, r)
     _positive_kpad_diag(r)
     _normalise_for_open_findings(r, _open_triggers())
+    if mode == "sample" and cell_name != "ciq" and draw(st.integers(0, 7)) == 0:
+        r = _negative_shift(r)
     shp = _shape_of_recipe(r)
     n = shp[-1]
     members = gen.prod(shp[:-2])
